@@ -281,7 +281,7 @@ def build_streams(rng, tier):
         Stream("exhaustive-small", small, h, **kw),
         Stream("structured+random", lines, h, **kw),
         Stream("connected-last-frame", conn, h, **kw),
-        Stream("frame-log", log, h, canon=cm, shrink=shrink_classify),
+        Stream("frame-log", log, h, canon=lambda m: "!ReductionTimeout" if m.endswith(" INCOMPLETE") else cm(m), shrink=shrink_classify),
     ]
 
 RULE = ("collections from the structured generator of C01 (random dense/sparse, canonical stars, obfuscated stars with dependents / "
